@@ -1,6 +1,7 @@
 package rules
 
 import (
+	"go/token"
 	"strings"
 
 	"golang.org/x/tools/go/ssa"
@@ -262,6 +263,50 @@ func c06(c *Ctx) {
 						}
 					}
 				}
+			}
+			// the same tests combined in a named boolean (`bindable := !created || ref == nil || equal`,
+			// `foreign := created && ref != nil && !equal`)
+			{
+				var pos, neg []ssa.Value
+				notOf := func(v ssa.Value) []ssa.Value {
+					var out []ssa.Value
+					if v.Referrers() != nil {
+						for _, r := range *v.Referrers() {
+							if u, ok := r.(*ssa.UnOp); ok && u.Op == token.NOT {
+								out = append(out, u)
+							}
+						}
+					}
+					return out
+				}
+				pos = append(pos, head.Value())
+				neg = append(neg, notOf(head.Value())...)
+				for _, x := range calls(rec, metaWasCreated) {
+					if argHasType(0, tXRUnstr)(cfgx.CallArgs(x)) {
+						neg = append(neg, x.Value())
+						pos = append(pos, notOf(x.Value())...)
+					}
+				}
+				for _, a := range head.Common().Args {
+					for _, ci := range flow.Default.CallsIn(a) {
+						if !strings.HasSuffix(cfgx.CalleeName(ci), "composite.Unstructured).GetClaimReference") {
+							continue
+						}
+						for _, b := range rec.Blocks {
+							for _, in := range b.Instrs {
+								if bo, ok := in.(*ssa.BinOp); ok && (bo.X == ci.Value() && cfgx.IsNilConst(bo.Y) || bo.Y == ci.Value() && cfgx.IsNilConst(bo.X)) {
+									if bo.Op == token.EQL {
+										pos = append(pos, bo)
+									} else if bo.Op == token.NEQ {
+										neg = append(neg, bo)
+									}
+								}
+							}
+						}
+					}
+				}
+				allowed = append(allowed, boolDisjTrueEdges(rec, pos)...)
+				allowed = append(allowed, boolConjFalseEdges(rec, neg)...)
 			}
 			for _, e := range effects {
 				r, w := cfgx.ReachableFromEdges(unbound, e, nil, c.posf())
